@@ -406,7 +406,13 @@ func (b *Builder) structHash(t *types.Struct) (ret []byte, pkg string) {
 			name = "-"
 		}
 		ft, _ := b.TypeName(f.Type())
-		fmt.Fprintln(h, name, ft)
+		if tag := t.Tag(i); tag != "" {
+			// Struct tags are part of type identity (Go spec, "Type identity").
+			// Untagged fields keep their previous rendering so existing names are stable.
+			fmt.Fprintln(h, name, ft, strconv.Quote(tag))
+		} else {
+			fmt.Fprintln(h, name, ft)
+		}
 	}
 	ret = h.Sum(b.buf[:0])
 	return
